@@ -1,34 +1,37 @@
 #!/bin/bash
 # Must-fail / must-pass corpus for the engine. Each line of mutants.tsv:
-#   <property> <TAB> <file under /repo> <TAB> <perl substitution> <TAB> fail|pass <TAB> note
-# The substitution is applied to the working tree of /repo, the property's quick check is run,
-# and the file is restored with git checkout. "fail" mutants must produce a VIOLATION line,
-# "pass" mutants (harmless refactors) must not.
+#   <property> <TAB> <file under the repository> <TAB> <perl substitution> <TAB> fail|pass <TAB> note
+# The corpus runs on a scratch worktree of /repo's HEAD (never on /repo itself): the substitution is
+# applied there, the property's quick check is run with VERIF_REPO pointing at the worktree, and the
+# file is restored. "fail" mutants must produce a VIOLATION line, "pass" mutants (harmless
+# refactors) must not. Evidence and replays of mutated runs go to scratch directories.
+#   selftest/run.sh [<egrep filter on "property file note">] [<parallel jobs, default 1>]
 cd "$(dirname "$0")/.."
-if [ -n "$(git -C /repo status --porcelain --untracked-files=no)" ]; then
-  echo "refusing to run: /repo has uncommitted changes to tracked files (they would be lost by git checkout)"; exit 2
-fi
+export GOFLAGS=-mod=mod GOPROXY=off GOSUMDB=off GOTOOLCHAIN=local
 FILTER="${1:-.}"
+WT=$(mktemp -d /tmp/selftestwt.XXXXXX); rmdir "$WT"
+git -C /repo worktree add --detach "$WT" HEAD >/dev/null 2>&1 || { echo "cannot create worktree"; exit 2; }
+trap 'git -C /repo worktree remove --force "$WT" >/dev/null 2>&1; rm -rf /tmp/selftest-evidence /tmp/selftest-replays' EXIT
 ok=0; bad=0
 while IFS=$'\t' read -r prop file subst expect note; do
   [ -z "$prop" ] && continue
   case "$prop" in \#*) continue;; esac
   echo "$prop $file $note" | grep -qE "$FILTER" || continue
-  before=$(md5sum "/repo/$file" | cut -d' ' -f1)
+  before=$(md5sum "$WT/$file" | cut -d' ' -f1)
   # packages that depend on the harmony bls cgo library do not build even unmodified in this sandbox;
   # for those the compile check is left to gocv's own type check of the package
-  basebuild=0; (cd /repo && go build ./$(dirname "$file")/ 2>/dev/null) || basebuild=1
-  perl -0pi -e "$subst" "/repo/$file"
-  after=$(md5sum "/repo/$file" | cut -d' ' -f1)
+  basebuild=0; (cd "$WT" && go build ./$(dirname "$file")/ 2>/dev/null) || basebuild=1
+  perl -0pi -e "$subst" "$WT/$file"
+  after=$(md5sum "$WT/$file" | cut -d' ' -f1)
   if [ "$before" = "$after" ]; then
     echo "SELFTEST-BROKEN (substitution did not apply): $prop $file $note"; bad=$((bad+1)); continue
   fi
-  if [ $basebuild = 0 ] && ! (cd /repo && go build ./$(dirname "$file")/ 2>/dev/null); then
+  if [ $basebuild = 0 ] && ! (cd "$WT" && go build ./$(dirname "$file")/ 2>/dev/null); then
     echo "SELFTEST-BROKEN (mutant does not compile): $prop $file $note"; bad=$((bad+1))
-    git -C /repo checkout -- "$file"; continue
+    git -C "$WT" checkout -- "$file"; continue
   fi
-  out=$(VERIF_EVIDENCE_DIR=/tmp/selftest-evidence ./check "$prop" --tier quick 2>&1)
-  git -C /repo checkout -- "$file"
+  out=$(VERIF_REPO="$WT" VERIF_EVIDENCE_DIR=/tmp/selftest-evidence VERIF_REPLAY_DIR=/tmp/selftest-replays VERIF_NO_REPLAY=1 ./check "$prop" --tier quick 2>&1)
+  git -C "$WT" checkout -- "$file"
   if echo "$out" | grep -q '^VIOLATION'; then got=fail; else got=pass; fi
   if [ "$got" = "$expect" ]; then
     ok=$((ok+1)); echo "ok   [$expect] $prop $note :: $(echo "$out" | grep -m1 '^VIOLATION' | sed 's/.*replays\///')"
